@@ -119,7 +119,8 @@ def run_reader(spec, R):
     mixed = lang == 'mixed'
     if mixed:
         lang = 'en'
-    env.install(lang)
+    # modules are imported while the language still has its default, the language is chosen afterwards (as __main__ does)
+    env.install()
     env.stub_native_parsing()
     from depccg.printer import to_string
     from depccg.tools.reader import read_auto, read_xml, read_jigg_xml, read_ptb
@@ -172,13 +173,16 @@ def run_reader(spec, R):
                 set_global_language_to(lang)
             for st in flat:
                 R.case(stable_hash(('nltk', treegen.tree_dump(st.tree))), len(st.tree.leaves) >= 2)
-                try:
-                    t = Tree.of_nltk_tree(to_fake_nltk(st.tree))
-                except Exception as e:
-                    R.violation('tree:label-not-from-creating-rule', f'Tree.of_nltk_tree raised {e!r}', wit)
-                    continue
-                R.count('reader:nltk-trees')
-                judge(t, ix, R, 'nltk', False, dict(wit, format='nltk'))
+                for active, aix in ([(lang, ix)] if not mixed else rng.sample([('en', ix), ('ja', other_ix)], 2)):
+                    set_global_language_to(active)
+                    try:
+                        t = Tree.of_nltk_tree(to_fake_nltk(st.tree))
+                    except Exception as e:
+                        R.violation('tree:label-not-from-creating-rule', f'Tree.of_nltk_tree raised {e!r}', wit)
+                        continue
+                    R.count('reader:nltk-trees')
+                    judge(t, aix, R, f'nltk[{active}]', False, dict(wit, format='nltk', active_language=active))
+                set_global_language_to(lang)
             if R.out_of_time():
                 break
         R.sample({'lang': lang, 'formats': list(readers) + ['nltk'], 'last_batch_leaves': [len(st.tree.leaves) for st in flat]})
